@@ -31,12 +31,20 @@ func init() {
 func c22R2(c *engine.Ctx) {
 	iv := engine.NewBounds().IV
 	const mib = 1024 * 1024
+	var decIv, encIv *engine.Interval
+	defer func() {
+		// sibling agreement: the set of lengths the decoder accepts must be the set the encoder writes
+		if decIv != nil && encIv != nil {
+			c.Check(*decIv == *encIv, "C22.R2", "Message/encode-decode-accept-same-lengths", 0, "Message.Encode writes body lengths %s but Message.Decode accepts %s: a length only one side accepts breaks the round trip at that boundary", *encIv, *decIv)
+		}
+	}()
 	if fn := c.MustFunc("C22.R2", "proto", "Message.Decode"); fn != nil {
 		n := 0
 		engine.Instrs(fn, func(i ssa.Instruction) {
 			if ms, ok := i.(*ssa.MakeSlice); ok {
 				n++
 				l := iv.At(ms.Len, ms)
+				decIv = &l
 				c.Check(l.Lo >= 0 && l.Hi <= mib, "C22.R2", "Message.Decode/alloc#"+ordinal(fn, ms), ms.Pos(), "body allocation size ∈ %s must be within [0, 1 MiB] (length comes from the wire)", l)
 			}
 		})
@@ -55,6 +63,7 @@ func c22R2(c *engine.Ctx) {
 				continue
 			}
 			l := iv.At(bytesField, r)
+			encIv = &l
 			c.Check(l.Lo >= 0 && l.Hi <= mib, "C22.R2", "Message.Encode/length-bound", r.Pos(), "encoded length field ∈ %s must be within [0, 1 MiB], matching the decoder", l)
 		}
 	}
